@@ -300,7 +300,14 @@ pub fn gen_query(r: &mut Rng, w: &World, pc: &PluginChoice, qid: usize, failing_
         q["grid_search"] = Value::Object(g);
     }
     if pc.lb == Some("custom") {
-        q["w"] = json!(many_digits(r, 0.1, 20.0));
+        // mostly ordinary estimates; sometimes ties, zero, negative or huge ones (all legal numbers)
+        q["w"] = match r.below(20) {
+            0 => json!(0),
+            1 => json!(-3.5),
+            2 => json!(1e300),
+            3 | 4 => json!(1.0),
+            _ => json!(many_digits(r, 0.1, 20.0)),
+        };
     }
     (q, kind)
 }
@@ -367,9 +374,10 @@ pub fn gen_energy(r: &mut Rng, w: &mut World) {
     let mut vehicles = vec![];
     let kinds = ["ice", "bev", "phev"];
     let n = r.range(1, 3) as usize;
-    let mut order: Vec<usize> = vec![0, 1, 2];
-    r.shuffle(&mut order);
-    for (i, ki) in order.into_iter().take(n).enumerate() {
+    // kinds drawn with replacement: two vehicles may share one model file (with different
+    // adjustment / battery / cache), which is where a cache or record shared by mistake shows
+    let order: Vec<usize> = (0..n).map(|_| r.below(3) as usize).collect();
+    for (i, ki) in order.into_iter().enumerate() {
         let kind = kinds[ki];
         let cache = if r.chance(0.75) { Some((*r.pick(&[1usize, 2, 3, 8, 1000]), ps, pg)) } else { None };
         let (model, model2) = match kind {
